@@ -12,7 +12,8 @@ Model.  The display widget is an opaque object of kind "DisplayWidget": it honou
     row.base_widget              the Columns of that row (kind "DisplayColumns");  row.first_position  the index of its first cell
     cols.focus / cols.focus_position
 How the display widget is built (which cells, which widths, which row breaks) is the contract of
-`generate_display_widget` (contracts/C19_gridflow.py), verified there against the real loop.
+`generate_display_widget` (contracts/C19_gridflow.py), verified there against the real loop; callers see its
+result as a display widget "built from the current cells".
 """
 import z3
 
@@ -43,7 +44,7 @@ def widget_truthy(st, w):
 
 
 WIDGET = Opaque("Widget", truth=widget_truthy)
-GITEM = Tup(WIDGET, Tup(Atom("given"), Int))
+GITEM = Tup(WIDGET, Tup(Atom("given"), Int(0, 2**22 - 1)))  # width options are sane screen dimensions (DESIGN 3.6)
 GCONTENTS = Obj(_mlmod.MonitoredFocusList, dict(items=ListOf(GITEM), _focus=Int), base_list="items")
 DISPLAY = Opaque("DisplayWidget")
 GRIDFLOW = Obj(_gf.GridFlow, dict(_contents=GCONTENTS, _cell_width=Int, h_sep=Int, v_sep=Int, align=Opaque("Align"),
@@ -171,7 +172,7 @@ class gf_fp_get:
     self_shape = GRIDFLOW
     result = Int
     raises = (IndexError,)
-    invariant = staticmethod(gf_inv)
+    invariant = staticmethod(gf_ri)  # (read by generate_display_widget while the display widget in place is the stale one)
     raises_iff = {IndexError: lambda s, a: n_cells(s) == 0}
 
     def ensures(old, s, a, result):
@@ -291,20 +292,6 @@ def _gdw_state(old, s, a, result):
         #  matter only; what C06 needs is that the key never names ANOTHER width than the one `_w` was built for)
         yield "cache-key-names-no-other-width", (True if is_none(s._cache_maxcol) else val(s._cache_maxcol) == m)
     yield "cells-untouched", _same_cells(old, s)
-
-
-@contract(GF + "GridFlow.generate_display_widget", property="C19", replayable=False, assumed=True,
-          notes="PLACEHOLDER until contracts/C19_gridflow.py verifies the body")
-class gf_generate:
-    self_shape = GRIDFLOW
-    params = dict(size=GSIZE)
-    result = DISPLAY
-
-    def ensures(old, s, a, result):
-        yield "built-from-the-current-cells", _display_cells(result) == n_cells(old)
-
-    def effects(old, s, a, result):
-        cur().event("generate", a.size, result)
 
 
 @contract(GF + "GridFlow.get_display_widget", property=("C06", "C08", "C09"), replayable=False,
